@@ -99,6 +99,22 @@ def c08_fs(ctx, case):
                     "%s: psd(sampling=%g) vs psd(sampling=%g) x (s2/s1)^%d" % (row, s2, s1, e), sig=sig)
 
 
+def enum_grid(tier):
+    for row, p, N, cplx, nfft in est.grid_points(lengths=(17, 40, 150)):
+        for s1, s2 in ((1000.0, 2.5), (0.5, 44100.0)):
+            for form in ("py", "np"):
+                for which in ("scale", "fs", "setter"):
+                    yield {"which": which, "row": row, "x": est.sanitize(row, est.grid_x(N, cplx, 41)), "params": p,
+                           "nfft": nfft if nfft != N else None, "s1": s1, "s2": s2, "flag": form}
+
+
+@sub("C08.grid", enum=enum_grid, exhaustive=True, shards_quick=4, shards_thorough=4,
+     doc="fixed grid, independent of the seed: every row x N in {17, 40, 150} x real/complex x NFFT in {default, N+3, 2N} x two pairs "
+         "of sampling rates x literal / numpy flag: the scale, sampling and setter clauses")
+def c08_grid(ctx, case):
+    {"scale": c08_scale, "fs": c08_fs, "setter": c08_setter}[case["which"]](ctx, case)
+
+
 # ---- object-level history: sampling changed after construction --------------
 @sub("C08.setter", strategy=cls_case(), quick=1200, thorough=20000, shards_quick=2,
      doc="assigning .sampling / .scale_by_freq on an existing object gives the same PSD, df and axis as constructing with these values")
